@@ -423,3 +423,52 @@ def i_binary_search_by(ex, callee, a, env):
 
 def install():
     NATIVES[:0] = FIRST
+
+
+def _try_parts(r):
+    """(continue?, payload) of a value of a Try type (Result / Option / ControlFlow)"""
+    r = deref(r)
+    if isinstance(r, Adt) and r.variant in ('Ok', 'Some', 'Continue'):
+        return True, (r.f[0] if r.f else None)
+    return False, r
+
+
+@native_first(ITER_RECV + r'try_fold(::<.*>)?$', 'Iterator::try_fold')
+def i_try_fold(ex, callee, a, env):
+    acc = a[1]
+    wrap = None
+    while True:
+        x = pull(ex, a[0])
+        if x is END:
+            break
+        r = ex.call_value(a[2], [acc, x])
+        go, payload = _try_parts(r)
+        wrap = deref(r)
+        if not go:
+            return r
+        acc = payload
+    if wrap is not None:
+        return Adt(wrap.ty, wrap.variant, [acc])
+    m = re.search(r'try_fold::<.*,\s*(Result|Option|ControlFlow)<', callee)
+    head = m.group(1) if m else 'Result'
+    return Adt(head, {'Result': 'Ok', 'Option': 'Some', 'ControlFlow': 'Continue'}[head], [acc])
+
+
+@native_first(ITER_RECV + r'try_for_each(::<.*>)?$', 'Iterator::try_for_each')
+def i_try_for_each(ex, callee, a, env):
+    from .engine import UNIT
+    last = None
+    while True:
+        x = pull(ex, a[0])
+        if x is END:
+            break
+        r = ex.call_value(a[1], [x])
+        go, _ = _try_parts(r)
+        if not go:
+            return r
+        last = deref(r)
+    if last is not None:
+        return Adt(last.ty, last.variant, [UNIT])
+    m = re.search(r'try_for_each::<.*,\s*(Result|Option|ControlFlow)<', callee)
+    head = m.group(1) if m else 'Result'
+    return Adt(head, {'Result': 'Ok', 'Option': 'Some', 'ControlFlow': 'Continue'}[head], [UNIT])
